@@ -327,6 +327,8 @@ def verify_run(model, run, mode, api, file_name, features, result=None):
     error mode ``mode``.  Raises core.Violation on the first difference."""
     from sim import core
 
+    if run.stream_closed_behind_callers_back():
+        raise core.Violation("caller-stream-closed-by-cutplace", features, "the stream passed in as data source is closed after the run")
     changed = run.held_changed()
     if changed is not None:
         # an error handed out earlier must keep its own location while reading goes on
